@@ -28,7 +28,8 @@ fn strip_ansi(s: &str) -> String {
 const VALID: [&str; 14] = ["a > e / _#", "p > b / V_V", "V > [+nasal] / _N", "t > * / _#", "* > e / #_s", "$ > * / V_V", "", ";; just a comment", "C=1 V=2 > 2 1 / #_", "[+voice] > [-voice] | _#", "   ", "%:[+stress] > [-stress]", "n > m / _{p,b}", "s > ʃ / _i ;; palatalisation"];
 
 fn base_project(r: &mut Rng) -> (Vec<Vec<String>>, Vec<String>, Vec<String>, Vec<String>) {
-    let groups: Vec<Vec<String>> = (0..r.range(2, 4)).map(|_| (0..r.range(1, 4)).map(|_| r.pick(&VALID).to_string()).collect()).collect();
+    // (a quarter of the groups have no rule line at all: a heading with nothing under it)
+    let groups: Vec<Vec<String>> = (0..r.range(2, 5)).map(|_| if r.chance(1, 4) { Vec::new() } else { (0..r.range(1, 4)).map(|_| r.pick(&VALID).to_string()).collect() }).collect();
     let words: Vec<String> = (0..r.range(3, 6)).map(|_| rand_word(r, &WordCfg { tone: false, ..WordCfg::default() })).collect();
     let into = if r.chance(1, 2) { vec!["Ж > ʒ".to_string(), "ш > ʃ:[+long]".to_string()][..r.range(1, 2)].to_vec() } else { vec![] };
     let from = if r.chance(1, 2) { vec!["ʃ > sh".to_string(), "$ > *".to_string(), "V:[+long] > +@{macron}".to_string()][..r.range(1, 3)].to_vec() } else { vec![] };
